@@ -178,7 +178,7 @@ PROPS = {
                     "the whole-loop composition of the step lemmas is an oracle + correspondence, not yet a theorem"],
     },
     "C12": {
-        "lean_modules": ["WP.Props.C12"],
+        "lean_modules": ["WP.Props.C12", "WP.Props.PinoRewards"],
         "lean_support": ["WP.Props.C13"],
         "families": [("pmod", 40000, 2000000), ("poff", 40000, 3000000), ("hist", 10000, 300000), ("dyn", 10000, 500000), ("reset", 20000, 500000)],
         "history": True,
